@@ -5,8 +5,17 @@ KINDS = ['uncertified', 'uncertified_flat', 'state', 'impl_err:deadlock', 'impl_
 
 
 def P_C05(ctx, log, outcome_kind='ok', val=None, **kw):
-    if outcome_kind in ('ok', 'loop', 'scenario'):
+    if outcome_kind in ('ok', 'scenario'):
         return []
+    if outcome_kind == 'loop':
+        # the loop guard may end a run whose same-time loop does not settle (a demanded step carries a sub-step index that
+        # reached max_loop_iterations - the demands are recomputed from the simulators' replies); a run in which no demanded
+        # step gets there was ended although it would have run to completion
+        maxloop = kw.get('maxloop', 100)
+        dem = monitors.demands_of(ctx, log)
+        if any(x >= maxloop for k in dem for x in k[1][1:]) or not tracelib.convex(kw['case']):
+            return []
+        return [f'run() did not complete: the loop guard stopped it ({val.impl_outcome[:100] if val else ""}) although no demanded step has a sub-step index that reaches max_loop_iterations={maxloop}']
     extra = ''
     if outcome_kind == 'deadlock':
         # is the model, replayed on the same events, blocked in the same state (a deadlock of the scheduling rules), or
@@ -48,6 +57,7 @@ def known_match(failure, case, hyp_violated):
 
 
 def case_gen(rng, k):
+    if k % 16 == 9: return gen.gen_pingpong_case(rng)
     if k % 8 == 2: return gen.gen_nested_case(rng)
     if k % 4 == 3: return gen.gen_reentry_case(rng)
     if k % 8 == 6: return gen.gen_loop_case(rng)
